@@ -2,7 +2,7 @@
 """Second-round prompt for behaviour-preserving refactorings: h4..h6, different kinds from the first round."""
 import json, sys, glob, os
 pid, wt, out = sys.argv[1], sys.argv[2], sys.argv[3]
-tpl = open("/tmp/prompts/harmless_template.md").read()
+tpl = open("/verif/tools/prompts/harmless_template.md").read()
 for l in open("/verif/properties.jsonl"):
     p = json.loads(l)
     if p["id"] == pid:
